@@ -129,6 +129,13 @@ func (adapter *Adapter) UpdateInputs(deps []controller.Input) error {
 		}
 	}
 
+	// reject conflicting inputs before touching the dependency database, so that a failed update has no effect
+	for i := 1; i < len(deps); i++ {
+		if deps[i-1].EqualKeys(deps[i]) {
+			return fmt.Errorf("duplicate controller input: %q -> %v", adapter.Name, deps[i])
+		}
+	}
+
 	dbDeps, err := adapter.depDB.GetControllerInputs(adapter.Name)
 	if err != nil {
 		return fmt.Errorf("error fetching controller dependencies: %w", err)
